@@ -100,6 +100,8 @@ func showVal(v oval) string {
 		return showVal(x.dyn)
 	case oTop:
 		return "⊤(" + x.why + ")"
+	case oSlice:
+		return showSlice(x)
 	}
 	return fmt.Sprint(v)
 }
@@ -134,6 +136,8 @@ type oInterp struct {
 	// is an opaque object (a polygon of unknown shape): it is asked for a value of the
 	// call's single bool / small-enum result.  The driver enumerates every answer.
 	oracle func(f *types.Func, res types.Type) (oval, bool)
+	// stub, when set, may answer a call to a repo function instead of interpreting it.
+	stub func(f *types.Func, recv oval, args []oval) ([]oval, bool)
 }
 
 type oCtl int
@@ -142,6 +146,8 @@ const (
 	oNormal oCtl = iota
 	oReturn
 	oAbort // ⊤ reached a branch, or unsupported statement
+	oBreak
+	oContinue
 )
 
 type oFrame struct {
@@ -179,6 +185,8 @@ func (it *oInterp) zero(t types.Type) oval {
 		return oPtr{nil}
 	case *types.Interface:
 		return oIface{}
+	case *types.Slice:
+		return oSlice{typ: t}
 	}
 	return oTop{"zero of " + t.String()}
 }
@@ -303,6 +311,9 @@ func (fr *oFrame) stmt(s ast.Stmt) oCtl {
 		return oNormal
 	case *ast.DeclStmt:
 		gd, ok := s.Decl.(*ast.GenDecl)
+		if ok && (gd.Tok == token.CONST || gd.Tok == token.TYPE) {
+			return oNormal // constants are folded by the type checker where they are used
+		}
 		if !ok || gd.Tok != token.VAR {
 			return fr.abort("unsupported declaration")
 		}
@@ -324,7 +335,27 @@ func (fr *oFrame) stmt(s ast.Stmt) oCtl {
 	case *ast.AssignStmt:
 		return fr.assign(s)
 	case *ast.IncDecStmt:
+		if iv, ok := fr.eval(s.X).(oInt); ok {
+			if s.Tok == token.INC {
+				return fr.store(s.X, iv+1, false)
+			}
+			return fr.store(s.X, iv-1, false)
+		}
 		return fr.store(s.X, oTop{"arithmetic ++/--"}, false)
+	case *ast.RangeStmt:
+		return fr.rangeStmt(s)
+	case *ast.BranchStmt:
+		if s.Label == nil {
+			switch s.Tok {
+			case token.BREAK:
+				return oBreak
+			case token.CONTINUE:
+				return oContinue
+			}
+		}
+		return fr.abort("unsupported branch statement at %s", fr.it.p.Position(s.Pos()))
+	case *ast.LabeledStmt:
+		return fr.abort("labelled statement at %s", fr.it.p.Position(s.Pos()))
 	case *ast.ForStmt:
 		// bounded unrolling: only loops that terminate within a few abstract
 		// iterations are inside the fragment (e.g. the "nudge until different" loop)
@@ -337,8 +368,8 @@ func (fr *oFrame) stmt(s ast.Stmt) oCtl {
 			}
 		}
 		for iter := 0; ; iter++ {
-			if iter > 8 {
-				return fr.abort("loop at %s does not terminate within 8 abstract iterations", fr.it.p.Position(s.Pos()))
+			if iter > 64 {
+				return fr.abort("loop at %s does not terminate within 64 abstract iterations", fr.it.p.Position(s.Pos()))
 			}
 			if s.Cond != nil {
 				cv := fr.eval(s.Cond)
@@ -350,7 +381,9 @@ func (fr *oFrame) stmt(s ast.Stmt) oCtl {
 					return oNormal
 				}
 			}
-			if c := fr.stmt(s.Body); c != oNormal {
+			if c := fr.stmt(s.Body); c == oBreak {
+				return oNormal
+			} else if c != oNormal && c != oContinue {
 				return c
 			}
 			if s.Post != nil {
@@ -359,6 +392,8 @@ func (fr *oFrame) stmt(s ast.Stmt) oCtl {
 				}
 			}
 		}
+	case *ast.TypeSwitchStmt:
+		return fr.typeSwitch(s)
 	case *ast.SwitchStmt:
 		saved := fr.env
 		fr.env = &oEnv{vars: map[types.Object]*oval{}, parent: saved}
@@ -406,6 +441,9 @@ func (fr *oFrame) swBody(body []ast.Stmt) oCtl {
 		if bs, ok := s.(*ast.BranchStmt); ok {
 			if bs.Tok == token.BREAK && bs.Label == nil {
 				return oNormal
+			}
+			if bs.Tok == token.CONTINUE && bs.Label == nil {
+				return oContinue
 			}
 			return fr.abort("unsupported branch in switch")
 		}
@@ -464,12 +502,24 @@ func (fr *oFrame) structRef(e ast.Expr) *oStruct {
 		if x.Op == token.AND {
 			return fr.structRef(x.X)
 		}
+	case *ast.IndexExpr:
+		return fr.elemRef(x)
 	}
 	return nil
 }
 
 func (fr *oFrame) assign(s *ast.AssignStmt) oCtl {
 	if s.Tok != token.ASSIGN && s.Tok != token.DEFINE {
+		if len(s.Lhs) == 1 && len(s.Rhs) == 1 {
+			if li, ok := fr.eval(s.Lhs[0]).(oInt); ok {
+				if ri, ok := fr.eval(s.Rhs[0]).(oInt); ok {
+					op := map[token.Token]token.Token{token.ADD_ASSIGN: token.ADD, token.SUB_ASSIGN: token.SUB, token.MUL_ASSIGN: token.MUL, token.QUO_ASSIGN: token.QUO, token.REM_ASSIGN: token.REM}[s.Tok]
+					if v, ok := intBinop(op, li, ri); ok {
+						return fr.store(s.Lhs[0], v, false)
+					}
+				}
+			}
+		}
 		// op-assign on floats is arithmetic: the target becomes ⊤
 		for _, l := range s.Lhs {
 			if c := fr.store(l, oTop{"arithmetic " + s.Tok.String()}, false); c != oNormal {
@@ -532,6 +582,8 @@ func (fr *oFrame) store(l ast.Expr, v oval, define bool) oCtl {
 		}
 		base.fields[x.Sel.Name] = v
 		return oNormal
+	case *ast.IndexExpr:
+		return fr.storeIndex(x, v)
 	case *ast.StarExpr:
 		dst := fr.structRef(x)
 		sv, ok := v.(*oStruct)
@@ -579,8 +631,14 @@ func oEqual(a, b oval) (eq bool, ok bool) {
 		case oNil:
 			return x.s == nil, true
 		}
+	case oSlice:
+		if _, ok := b.(oNil); ok {
+			return x.isNil(), true
+		}
 	case oNil:
 		switch y := b.(type) {
+		case oSlice:
+			return y.isNil(), true
 		case oPtr:
 			return y.s == nil, true
 		case oNil:
@@ -621,6 +679,23 @@ func (fr *oFrame) evalMulti(e ast.Expr) []oval {
 		if p, ok := iv.dyn.(oPtr); ok && p.s != nil {
 			if pt, ok := want.(*types.Pointer); ok && types.Identical(pt.Elem(), p.s.typ) {
 				return []oval{p, oBool(true)}
+			}
+			if _, isIface := want.Underlying().(*types.Interface); isIface {
+				if types.Implements(types.NewPointer(p.s.typ), want.Underlying().(*types.Interface)) {
+					return []oval{iv, oBool(true)}
+				}
+			}
+			return []oval{fr.it.zero(want), oBool(false)}
+		}
+		if dt := dynType(iv.dyn); dt != nil {
+			if wi, isIface := want.Underlying().(*types.Interface); isIface {
+				if types.Implements(dt, wi) {
+					return []oval{iv, oBool(true)}
+				}
+				return []oval{fr.it.zero(want), oBool(false)}
+			}
+			if types.Identical(dt, want) {
+				return []oval{fr.rvalue(iv.dyn), oBool(true)}
 			}
 			return []oval{fr.it.zero(want), oBool(false)}
 		}
@@ -760,10 +835,20 @@ func (fr *oFrame) eval(e ast.Expr) oval {
 			}
 			return oTop{"comparison of " + showVal(l) + " and " + showVal(r)}
 		default:
+			if li, ok := fr.eval(x.X).(oInt); ok {
+				if ri, ok := fr.eval(x.Y).(oInt); ok {
+					if v, ok := intBinop(x.Op, li, ri); ok {
+						return v
+					}
+				}
+			}
 			return oTop{"arithmetic " + x.Op.String()}
 		}
 	case *ast.CompositeLit:
 		t := fr.info.TypeOf(x)
+		if _, isSlice := t.Underlying().(*types.Slice); isSlice {
+			return fr.sliceLit(x, t)
+		}
 		st, ok := t.Underlying().(*types.Struct)
 		if !ok {
 			return oTop{"composite literal of " + t.String()}
@@ -792,7 +877,9 @@ func (fr *oFrame) eval(e ast.Expr) oval {
 	case *ast.FuncLit:
 		return oFunc{lit: x, env: fr.env}
 	case *ast.IndexExpr:
-		return oTop{"index"}
+		return fr.indexExpr(x)
+	case *ast.SliceExpr:
+		return fr.sliceExpr(x)
 	}
 	return oTop{fmt.Sprintf("unsupported expression %T", e)}
 }
@@ -810,15 +897,48 @@ func (fr *oFrame) call(call *ast.CallExpr) []oval {
 		if _, ok := tv.Type.Underlying().(*types.Interface); ok {
 			return one(fr.toIface(v))
 		}
+		if sl, ok := v.(oSlice); ok {
+			sl.typ = tv.Type
+			return one(sl)
+		}
+		if _, isNil := v.(oNil); isNil {
+			if _, isSl := tv.Type.Underlying().(*types.Slice); isSl {
+				return one(oSlice{typ: tv.Type})
+			}
+		}
+		return one(v)
+	}
+	if v, ok := fr.builtinCall(call); ok {
 		return one(v)
 	}
 	// closure call
 	if id, ok := unparen(call.Fun).(*ast.Ident); ok {
 		if o := objOf(fr.info, id); o != nil {
 			if c := fr.env.lookup(o); c != nil {
-				if fn, ok := (*c).(oFunc); ok && len(call.Args) == 0 {
+				if fn, ok := (*c).(oFunc); ok {
+					if fr.depth > fr.it.maxDepth+4 {
+						return one(oTop{"closure call depth"})
+					}
 					sub := &oFrame{it: fr.it, info: fr.info, env: &oEnv{vars: map[types.Object]*oval{}, parent: fn.env}, depth: fr.depth + 1}
-					sub.resVars = make([]*types.Var, 1)
+					ps := paramVars(fr.info, fn.lit.Type)
+					if len(ps) != len(call.Args) {
+						return one(oTop{"closure arity"})
+					}
+					for i, pv := range ps {
+						v := fr.eval(call.Args[i])
+						if pv != nil {
+							sub.env.define(pv, fr.rvalue(v))
+						}
+					}
+					sub.resVars = resultVars(fr.info, fn.lit.Type)
+					for _, rv := range sub.resVars {
+						if rv != nil {
+							sub.env.define(rv, fr.it.zero(rv.Type()))
+						}
+					}
+					if len(sub.resVars) == 0 {
+						sub.resVars = make([]*types.Var, 1)
+					}
 					ctl := sub.block(fn.lit.Body.List)
 					if ctl == oAbort {
 						return one(oTop{sub.why})
@@ -895,6 +1015,20 @@ func (fr *oFrame) call(call *ast.CallExpr) []oval {
 						xv = p
 					}
 				}
+			} else if dt := dynType(iv.dyn); dt != nil {
+				// a value of a named slice/struct type held in the interface
+				obj, _, _ := types.LookupFieldOrMethod(dt, true, f.Pkg(), f.Name())
+				cf, ok := obj.(*types.Func)
+				if !ok {
+					return one(oTop{"no method " + f.Name() + " on " + dt.String()})
+				}
+				f = cf
+				sig = f.Type().(*types.Signature)
+				_, ptrRecv = sig.Recv().Type().(*types.Pointer)
+				xv = iv.dyn
+				if ptrRecv {
+					return one(oTop{"pointer-receiver method on a value in an interface"})
+				}
 			} else {
 				return one(oTop{"method on nil interface"})
 			}
@@ -921,19 +1055,46 @@ func (fr *oFrame) call(call *ast.CallExpr) []oval {
 			}
 		}
 	}
-	if fr.it.p.Decl(f) == nil {
+	if fr.it.p.Decl(f) == nil && fr.it.stub == nil {
 		return one(oTop{"call to " + f.FullName() + " (outside the repo)"})
 	}
 	var args []oval
 	ps := sig.Params()
 	for i, a := range call.Args {
 		v := fr.eval(a)
-		if i < ps.Len() {
-			if _, isIface := ps.At(i).Type().Underlying().(*types.Interface); isIface {
+		pi := i
+		if sig.Variadic() && pi >= ps.Len()-1 {
+			pi = ps.Len() - 1
+		}
+		if pi < ps.Len() {
+			pt := ps.At(pi).Type()
+			if sig.Variadic() && pi == ps.Len()-1 && !call.Ellipsis.IsValid() {
+				pt = pt.(*types.Slice).Elem()
+			}
+			if _, isIface := pt.Underlying().(*types.Interface); isIface {
 				v = fr.toIface(v)
 			}
 		}
 		args = append(args, v)
+	}
+	if fr.it.stub != nil {
+		if out, ok := fr.it.stub(f, recv, args); ok {
+			return out
+		}
+	}
+	if fr.it.p.Decl(f) == nil {
+		return one(oTop{"call to " + f.FullName() + " (outside the repo)"})
+	}
+	if sig.Variadic() && !call.Ellipsis.IsValid() {
+		// pack the variadic tail
+		n := ps.Len() - 1
+		if len(args) >= n {
+			tail := append([]oval{}, args[n:]...)
+			for i := range tail {
+				tail[i] = fr.rvalue(tail[i])
+			}
+			args = append(args[:n:n], oSlice{typ: ps.At(n).Type(), arr: &tail, lo: 0, hi: len(tail), capEnd: len(tail)})
+		}
 	}
 	res, why := fr.it.Call(f, recv, args, fr.depth+1)
 	if why != "" && fr.it.oracle != nil && sig.Results().Len() == 1 {
@@ -1098,4 +1259,124 @@ func max64(a, b int64) int64 {
 		return a
 	}
 	return b
+}
+
+// dynType: the static Go type of a value stored in an interface (nil when unknown).
+func dynType(v oval) types.Type {
+	switch x := v.(type) {
+	case oSlice:
+		return x.typ
+	case *oStruct:
+		if x != nil {
+			return x.typ
+		}
+	case oFloat:
+		return types.Typ[types.Float64]
+	case oInt:
+		return types.Typ[types.Int]
+	case oBool:
+		return types.Typ[types.Bool]
+	}
+	return nil
+}
+
+// typeSwitch interprets `switch [v :=] x.(type) { case T1, T2: … }` on a known dynamic value.
+func (fr *oFrame) typeSwitch(s *ast.TypeSwitchStmt) oCtl {
+	saved := fr.env
+	fr.env = &oEnv{vars: map[types.Object]*oval{}, parent: saved}
+	defer func() { fr.env = saved }()
+	if s.Init != nil {
+		if c := fr.stmt(s.Init); c != oNormal {
+			return c
+		}
+	}
+	var ta *ast.TypeAssertExpr
+	switch a := s.Assign.(type) {
+	case *ast.ExprStmt:
+		ta, _ = unparen(a.X).(*ast.TypeAssertExpr)
+	case *ast.AssignStmt:
+		if len(a.Rhs) == 1 {
+			ta, _ = unparen(a.Rhs[0]).(*ast.TypeAssertExpr)
+		}
+	}
+	if ta == nil {
+		return fr.abort("type switch shape")
+	}
+	xv := fr.eval(ta.X)
+	iv, ok := xv.(oIface)
+	if !ok {
+		if _, isNil := xv.(oNil); isNil {
+			iv = oIface{}
+		} else {
+			return fr.abort("type switch on %s", showVal(xv))
+		}
+	}
+	if iv.opaque != nil {
+		return fr.abort("type switch on opaque %s", iv.opaque.name)
+	}
+	matches := func(t types.Type) (oval, bool) {
+		if t == nil { // case nil
+			return oNil{}, iv.dyn == nil
+		}
+		if iv.dyn == nil {
+			return nil, false
+		}
+		if p, ok := iv.dyn.(oPtr); ok {
+			if p.s == nil {
+				return nil, false
+			}
+			if pt, ok := t.(*types.Pointer); ok && types.Identical(pt.Elem(), p.s.typ) {
+				return p, true
+			}
+			if wi, ok := t.Underlying().(*types.Interface); ok && types.Implements(types.NewPointer(p.s.typ), wi) {
+				return iv, true
+			}
+			return nil, false
+		}
+		dt := dynType(iv.dyn)
+		if dt == nil {
+			return nil, false
+		}
+		if wi, ok := t.Underlying().(*types.Interface); ok {
+			if types.Implements(dt, wi) {
+				return iv, true
+			}
+			return nil, false
+		}
+		if types.Identical(dt, t) {
+			return fr.rvalue(iv.dyn), true
+		}
+		return nil, false
+	}
+	var deflt *ast.CaseClause
+	run := func(cc *ast.CaseClause, bound oval) oCtl {
+		if o := fr.info.Implicits[cc]; o != nil {
+			fr.env.define(o, bound)
+		}
+		c := fr.swBody(cc.Body)
+		return c
+	}
+	for _, c := range s.Body.List {
+		cc := c.(*ast.CaseClause)
+		if cc.List == nil {
+			deflt = cc
+			continue
+		}
+		for _, e := range cc.List {
+			var t types.Type
+			if tv, ok := fr.info.Types[e]; ok && !tv.IsNil() {
+				t = tv.Type
+			}
+			if v, ok := matches(t); ok {
+				if len(cc.List) > 1 {
+					v = iv // several types in one clause: the variable keeps the interface type
+				}
+				return run(cc, v)
+			}
+		}
+	}
+	if deflt != nil {
+		return run(deflt, iv)
+	}
+	return oNormal
 }
